@@ -520,7 +520,41 @@ def check_equ(ev):
     return {"bad": bad}
 
 
-CHECKERS = {"gssv": check_gssv, "gstrf": check_gstrf, "gssvx": check_gssvx, "gsisx": check_gssvx, "equ": check_equ}
+def check_ldperm(ev):
+    """C17 rounding slice (arbitrary magnitudes): bijection on nonzeros, optimal product by brute force, scaled entries
+    at most one and matched entries one up to rounding"""
+    import itertools, math
+    ty = ev["ty"]; cplx = CPLX[ty]; n = ev["n"]
+    if n > 6:
+        return {"bad": []}
+    A = {}
+    for i, j, t in ev["A0"]:
+        v = val(t, cplx); A[(i, j)] = float(cmod(v))
+    A = {k: a for k, a in A.items() if a != 0}
+    perms = [p for p in itertools.permutations(range(n)) if all((i, p[i]) in A for i in range(n))]
+    bad = []
+    if not perms:
+        return {"bad": [] if ev["ret"] != 0 else ["C17.structural_singularity_not_reported"]}
+    if ev["ret"] != 0:
+        return {"bad": ["C17.nonsingular_reported_singular"]}
+    p = ev["perm"]
+    if sorted(p) != list(range(n)) or any((i, p[i]) not in A for i in range(n)):
+        return {"bad": ["C17.not_a_matching_with_nonzero_diagonal"]}
+    best = max(sum(math.log(A[(i, q[i])]) for i in range(n)) for q in perms)
+    mine = sum(math.log(A[(i, p[i])]) for i in range(n))
+    tolr = 1e-4 if ty in "sc" else 1e-9
+    if mine < best - tolr * (1 + abs(best)):
+        bad.append("C17.product_not_maximal")
+    if ev["job"] == 5:
+        u = [float(tok(t)) for t in ev["u"]]; v = [float(tok(t)) for t in ev["v"]]
+        for (i, j), a in A.items():
+            s = math.exp(u[i] + v[j] + math.log(a))
+            if s > 1 + 100 * tolr or (j == p[i] and abs(s - 1) > 100 * tolr):
+                bad.append("C17.scaling_not_unit"); break
+    return {"bad": bad}
+
+
+CHECKERS = {"ldperm": check_ldperm, "gssv": check_gssv, "gstrf": check_gstrf, "gssvx": check_gssvx, "gsisx": check_gssvx, "equ": check_equ}
 
 
 def check_line(ev):
